@@ -25,9 +25,9 @@ def c01() -> List[V]:
           "self.operation(operand_values[self.right._id_].value, operand_values[self.left._id_].value)", rule="OPDEN"),
         V("is-false-not-negated", S, "Comparator._evaluate__", "self._is_false_ = not res", "self._is_false_ = res",
           rule="CMP-TRUTH"),
-        V("false-rows-never-yielded", S, "Comparator._evaluate__", "if res or self._yield_when_false_:", "if res:",
+        V("false-rows-never-yielded", S, "Comparator._evaluate__", "if res or yield_when_false:", "if res:",
           rule="CMP-TRUTH"),
-        V("all-rows-yielded", S, "Comparator._evaluate__", "if res or self._yield_when_false_:", "if True:",
+        V("all-rows-yielded", S, "Comparator._evaluate__", "if res or yield_when_false:", "if True:",
           rule="CMP-TRUTH"),
         V("second-operand-reads-first", S, "Comparator._evaluate__", "second_value[second_operand._id_]",
           "second_value[first_operand._id_]", rule="OPERAND-VALUES"),
@@ -37,8 +37,8 @@ def c01() -> List[V]:
           "return Comparator(container, item, operator.contains)", kind="twin"),
         V("twin-keyword-construction", S, "CanBehaveLikeAVariable.__le__", "Comparator(self, other, operator.le)",
           "Comparator(left=self, right=other, operation=operator.le)", kind="twin"),
-        V("twin-truth-rephrased", S, "Comparator._evaluate__", "if res or self._yield_when_false_:",
-          "if not (not res and not self._yield_when_false_):", kind="twin"),
+        V("twin-truth-rephrased", S, "Comparator._evaluate__", "if res or yield_when_false:",
+          "if not (not res and not yield_when_false):", kind="twin"),
     ]
 
 
@@ -55,7 +55,7 @@ def c03() -> List[V]:
         V("no-way-back-from-not-contains", S, "Comparator._invert_@setter",
           "            case _ if self.operation is not_contains:\n                self.operation = operator.contains\n", "",
           rule="NEG-INVOLUTION"),
-        V("leaf-sets-true", S, "Not", "operand._invert_ = not getattr(operand, '_invert_', False)", "operand._invert_ = True",
+        V("leaf-sets-true", S, "Not", "operand._invert_ = not operand._invert_", "operand._invert_ = True",
           rule="NEG-INVOLUTION"),
         V("not-and-builds-and", S, "Not", "operand = ElseIf(Not(operand.left), Not(operand.right))",
           "operand = AND(Not(operand.left), Not(operand.right))", rule="NEG-DEMORGAN"),
@@ -73,8 +73,8 @@ def c03() -> List[V]:
           "                    self._is_false_ = True\n                else:\n                    self._is_false_ = False", rule="NEG-TRUTH"),
         V("twin-not-and-optimize-or", S, "Not", "operand = ElseIf(Not(operand.left), Not(operand.right))",
           "operand = _optimize_or(Not(operand.left), Not(operand.right))", kind="twin"),
-        V("twin-leaf-plain-toggle", S, "Not", "operand._invert_ = not getattr(operand, '_invert_', False)",
-          "operand._invert_ = not operand._invert_", kind="twin"),
+        V("twin-leaf-plain-toggle", S, "Not", "operand._invert_ = not operand._invert_",
+          "operand._invert_ = False if operand._invert_ else True", kind="twin"),
         V("twin-mapping-truth-as-xor", S, "DomainMapping._evaluate__",
           "if (not self._invert_ and v.value) or (self._invert_ and not v.value):", "if bool(v.value) != self._invert_:",
           kind="twin"),
@@ -145,11 +145,11 @@ def c08() -> List[V]:
     return [
         V("yield-under-mode", S, "An.evaluate", "                    result = self._process_result_(result)\n                yield result",
           "                    result = self._process_result_(result)\n                    yield result", rule="NO-YIELD-UNDER-MODE"),
-        V("restore-not-in-finally", S, "symbolic_mode", "    finally:\n        if query is not None:\n            query.__exit__()\n        _set_symbolic_mode(prev_mode)",
-          "    finally:\n        if query is not None:\n            query.__exit__()\n    _set_symbolic_mode(prev_mode)", rule="MODE-PAIRING"),
+        V("restore-not-in-finally", S, "symbolic_mode", "    finally:\n        if query is not None:\n            query.__exit__()\n        if hidden_stack is not None:\n            SymbolicExpression._symbolic_expression_stack_ = hidden_stack\n        _set_symbolic_mode(prev_mode)",
+          "    finally:\n        if query is not None:\n            query.__exit__()\n        if hidden_stack is not None:\n            SymbolicExpression._symbolic_expression_stack_ = hidden_stack\n    _set_symbolic_mode(prev_mode)", rule="MODE-PAIRING"),
         V("restore-constant", S, "symbolic_mode", "        _set_symbolic_mode(prev_mode)", "        _set_symbolic_mode(None)", rule="MODE-PAIRING"),
-        V("query-exit-skipped-on-error", S, "symbolic_mode", "    finally:\n        if query is not None:\n            query.__exit__()\n        _set_symbolic_mode(prev_mode)",
-          "        if query is not None:\n            query.__exit__()\n    finally:\n        _set_symbolic_mode(prev_mode)", rule="MODE-PAIRING"),
+        V("query-exit-skipped-on-error", S, "symbolic_mode", "    finally:\n        if query is not None:\n            query.__exit__()\n        if hidden_stack is not None:\n            SymbolicExpression._symbolic_expression_stack_ = hidden_stack\n        _set_symbolic_mode(prev_mode)",
+          "        if query is not None:\n            query.__exit__()\n    finally:\n        if hidden_stack is not None:\n            SymbolicExpression._symbolic_expression_stack_ = hidden_stack\n        _set_symbolic_mode(prev_mode)", rule="MODE-PAIRING"),
         V("foreign-mode-writer", S, "QueryObjectDescriptor.__post_init__", "        super().__post_init__()\n        if in_symbolic_mode(EQLMode.Rule):",
           "        super().__post_init__()\n        _set_symbolic_mode(_symbolic_mode.get())\n        if in_symbolic_mode(EQLMode.Rule):", rule="MODE-WRITER"),
         V("getitem-unguarded", S, "CanBehaveLikeAVariable.__getitem__", "        self._if_not_in_symbolic_mode_raise_error_('__getitem__')\n", "",
@@ -171,8 +171,8 @@ def c08() -> List[V]:
           "    _set_symbolic_mode(EQLMode.Rule)\n    yield SymbolicExpression._current_parent_()", rule="MODE-WRITER"),
         V("twin-guard-inline", S, "CanBehaveLikeAVariable.__getitem__", "        self._if_not_in_symbolic_mode_raise_error_('__getitem__')\n",
           "        if not in_symbolic_mode():\n            raise AttributeError('not in symbolic mode')\n", kind="twin"),
-        V("twin-restore-then-exit", S, "symbolic_mode", "    finally:\n        if query is not None:\n            query.__exit__()\n        _set_symbolic_mode(prev_mode)",
-          "    finally:\n        _set_symbolic_mode(prev_mode)\n        if query is not None:\n            query.__exit__()", kind="twin"),
+        V("twin-restore-then-exit", S, "symbolic_mode", "    finally:\n        if query is not None:\n            query.__exit__()\n        if hidden_stack is not None:\n            SymbolicExpression._symbolic_expression_stack_ = hidden_stack\n        _set_symbolic_mode(prev_mode)",
+          "    finally:\n        _set_symbolic_mode(prev_mode)\n        if hidden_stack is not None:\n            SymbolicExpression._symbolic_expression_stack_ = hidden_stack\n        if query is not None:\n            query.__exit__()", kind="twin"),
     ]
 
 
@@ -238,11 +238,11 @@ def c13() -> List[V]:
 def c14() -> List[V]:
     return [
         V("keyed-by-type-of-base", "predicate", "instantiate_class_and_update_cache",
-          "    Variable._cache_[symbolic_cls].insert(kwargs, HashedValue(instance), index=index)",
-          "    Variable._cache_[symbolic_cls.__mro__[-2]].insert(kwargs, HashedValue(instance), index=index)", rule="REG-KEY"),
+          "    Variable._cache_[symbolic_cls].insert(kwargs, HashedValue(instance, id(instance)), index=index)",
+          "    Variable._cache_[symbolic_cls.__mro__[-2]].insert(kwargs, HashedValue(instance, id(instance)), index=index)", rule="REG-KEY"),
         V("registration-conditional", "predicate", "instantiate_class_and_update_cache",
-          "    Variable._cache_[symbolic_cls].insert(kwargs, HashedValue(instance), index=index)",
-          "    if kwargs or not index:\n        Variable._cache_[symbolic_cls].insert(kwargs, HashedValue(instance), index=index)", rule="REG-MUST"),
+          "    Variable._cache_[symbolic_cls].insert(kwargs, HashedValue(instance, id(instance)), index=index)",
+          "    if kwargs or not index:\n        Variable._cache_[symbolic_cls].insert(kwargs, HashedValue(instance, id(instance)), index=index)", rule="REG-MUST"),
         V("registered-twice", "predicate", "instantiate_class_and_update_cache",
           "    return instance", "    Variable._cache_[symbolic_cls].insert({}, HashedValue(instance), index=False)\n    return instance", rule="REG-MUST"),
         V("lookup-superclasses", "cache_data", "get_cache_keys_for_class_", "issubclass(t, clazz)", "issubclass(clazz, t)", rule="REG-LOOKUP"),
@@ -342,14 +342,14 @@ REGISTRY = {"C01": c01, "C03": c03, "C04": c04, "C05": c05, "C06": c06, "C08": c
 
 def c02() -> List[V]:
     return [
-        V("and-right-ignores-left", S, "AND._evaluate__", "self.right._evaluate__(left_value, yield_when_false=self._yield_when_false_)",
-          "self.right._evaluate__(sources, yield_when_false=self._yield_when_false_)", rule="BIND-THREAD"),
+        V("and-right-ignores-left", S, "AND._evaluate__", "self.right._evaluate__(left_value, yield_when_false=yield_when_false)",
+          "self.right._evaluate__(sources, yield_when_false=yield_when_false)", rule="BIND-THREAD"),
         V("second-operand-unbound", S, "Comparator._evaluate__", "second_operand._evaluate_as_value_(first_value)",
           "second_operand._evaluate_as_value_(sources)", rule="BIND-THREAD"),
-        V("elseif-right-ignores-left", S, "ElseIf._evaluate__", "right_values = self.right._evaluate__(left_value, yield_when_false=self._yield_when_false_)",
-          "right_values = self.right._evaluate__(sources, yield_when_false=self._yield_when_false_)", rule="BIND-THREAD"),
-        V("descriptor-drops-sources", S, "QueryObjectDescriptor._evaluate_", "child_values = self._child_._evaluate__(sources, yield_when_false=self._yield_when_false_)",
-          "child_values = self._child_._evaluate__({}, yield_when_false=self._yield_when_false_)", rule="BIND-THREAD"),
+        V("elseif-right-ignores-left", S, "ElseIf._evaluate__", "right_values = self.right._evaluate__(left_value, yield_when_false=yield_when_false)",
+          "right_values = self.right._evaluate__(sources, yield_when_false=yield_when_false)", rule="BIND-THREAD"),
+        V("descriptor-drops-sources", S, "QueryObjectDescriptor._evaluate_", "child_values = self._child_._evaluate__(sources, yield_when_false=yield_when_false)",
+          "child_values = self._child_._evaluate__({}, yield_when_false=yield_when_false)", rule="BIND-THREAD"),
         V("selected-expression-unbound", S, "QueryObjectDescriptor._bind_selected_variables_", "selected_vars[0]._evaluate_as_value_(copy(binding))",
           "selected_vars[0]._evaluate_as_value_()", rule="BIND-THREAD"),
         V("selected-expression-projected", S, "QueryObjectDescriptor._bind_selected_variables_", "            extended_binding.update(value)\n",
@@ -362,7 +362,7 @@ def c02() -> List[V]:
         V("lockstep-combinations", "utils", "generate_combinations", "    for combination in combine(0):\n        yield dict(zip(keys, combination))",
           "    for combination in zip(*iterators):\n        yield dict(zip(keys, combination))", rule="PRODUCT"),
         V("selected-in-lockstep", S, "QueryObjectDescriptor._evaluate_", "yield from self._bind_selected_variables_(list(selected_vars), v)",
-          "for sol in lazy_iterate_dicts({var: var._evaluate_as_value_(copy(v)) for var in selected_vars}):\n                    w = copy(v)\n                    for d in sol.values():\n                        w.update(d)\n                    yield w",
+          "for sol in lazy_iterate_dicts({var: var._evaluate_as_value_(copy(v)) for var in selected_vars}):\n                        w = copy(v)\n                        for d in sol.values():\n                            w.update(d)\n                        yield w",
           rule="PRODUCT"),
         V("twin-and-merge-order", S, "AND._evaluate__", "                        output = copy(right_value)\n                        output.update(left_value)",
           "                        output = copy(left_value)\n                        output.update(right_value)", kind="twin"),
@@ -396,8 +396,8 @@ def c07() -> List[V]:
         V("type-filter-materialises", "predicate", "extract_selected_variable_and_expression",
           "domain = From(filter(lambda v: isinstance(v, symbolic_cls), domain.domain))",
           "domain = From(list(filter(lambda v: isinstance(v, symbolic_cls), domain.domain)))", rule="LAZY-TAINT"),
-        V("and-sorts-left", S, "AND._evaluate__", "            left_values = self.left._evaluate__(sources, yield_when_false=self._yield_when_false_)",
-          "            left_values = sorted(self.left._evaluate__(sources, yield_when_false=self._yield_when_false_), key=len)", rule="LAZY-TAINT"),
+        V("and-sorts-left", S, "AND._evaluate__", "            left_values = self.left._evaluate__(sources, yield_when_false=yield_when_false)",
+          "            left_values = sorted(self.left._evaluate__(sources, yield_when_false=yield_when_false), key=len)", rule="LAZY-TAINT"),
         V("domain-wrapped-eagerly", "hashed_data", "HashedIterable.set_iterable",
           "self.iterable = (HashedValue(v) if not isinstance(v, HashedValue) else v for v in iterable)",
           "self.iterable = [HashedValue(v) if not isinstance(v, HashedValue) else v for v in iterable]", rule="MEMO-ON-PULL"),
@@ -517,7 +517,7 @@ def _logic_truth(rule="LOGIC-TRUTH"):
           "                    yield left_value", rule=rule),
         V("elseif-left-not-asked-for-false-rows", S, "ElseIf._evaluate__", "left_values = self.left._evaluate__(sources, yield_when_false=True)",
           "left_values = self.left._evaluate__(sources, yield_when_false=self._yield_when_false_)", rule=rule),
-        V("elseif-false-rows-always", S, "ElseIf._evaluate__", "                            if self._is_false_ and not self._yield_when_false_:\n                                continue\n                            if not self._is_false_:",
+        V("elseif-false-rows-always", S, "ElseIf._evaluate__", "                            if self._is_false_ and not yield_when_false:\n                                continue\n                            if not self._is_false_:",
           "                            if not self._is_false_:", rule=rule),
         V("twin-and-flag-local", S, "AND._evaluate__", "                        self._is_false_ = self.right._is_false_\n",
           "                        right_is_false = self.right._is_false_\n                        self._is_false_ = right_is_false\n", kind="twin"),
@@ -987,9 +987,9 @@ for _pid, _vs in _twins4().items():
 def c15() -> List[V]:
     return [
         V("quantifier-keeps-its-own-flag", S, "An._evaluate__", "                self._is_false_ = self._child_._is_false_\n", "", rule="QUANT-TRUTH"),
-        V("quantifier-hands-on-false-rows-unasked", S, "An._evaluate__", "                if self._yield_when_false_ or not self._is_false_:\n                    value.update(sources)",
+        V("quantifier-hands-on-false-rows-unasked", S, "An._evaluate__", "                if yield_when_false or not self._is_false_:\n                    value.update(sources)",
           "                if True:\n                    value.update(sources)", rule="QUANT-TRUTH"),
-        V("request-for-false-rows-not-passed-on", S, "An._evaluate__", "values = self._child_._evaluate__(sources, yield_when_false=self._yield_when_false_)",
+        V("request-for-false-rows-not-passed-on", S, "An._evaluate__", "values = self._child_._evaluate__(sources, yield_when_false=yield_when_false)",
           "values = self._child_._evaluate__(sources, yield_when_false=False)", rule="QUANT-TRUTH"),
         V("an-reexports-another-variable", S, "An._evaluate__", "value.update({self._id_: value[self._var_._id_]})", "value.update({self._id_: value[self._child_._id_]})",
           rule="QUANT-REEXPORT"),
@@ -1167,8 +1167,8 @@ def _twins5():
             V("twin-key-filter-identity-test", CS, "ConclusionSelector.update_conclusion", "lambda v: not isinstance(v.value, Literal))", "lambda v: isinstance(v.value, Literal) is False)", kind="twin"),
         ],
         "C08": [
-            V("twin-restore-order", S, "symbolic_mode", "        if query is not None:\n            query.__exit__()\n        _set_symbolic_mode(prev_mode)",
-              "        _set_symbolic_mode(prev_mode)\n        if query is not None:\n            query.__exit__()", kind="twin"),
+            V("twin-restore-order", S, "symbolic_mode", "        if query is not None:\n            query.__exit__()\n        if hidden_stack is not None:\n            SymbolicExpression._symbolic_expression_stack_ = hidden_stack\n        _set_symbolic_mode(prev_mode)",
+              "        _set_symbolic_mode(prev_mode)\n        if query is not None:\n            query.__exit__()\n        if hidden_stack is not None:\n            SymbolicExpression._symbolic_expression_stack_ = hidden_stack", kind="twin"),
         ],
         "C04": [
             V("twin-bare-except-rollback", S, "The.evaluate", "        except BaseException:\n", "        except:\n", kind="twin"),
@@ -1359,4 +1359,70 @@ def _batch7() -> Dict[str, List[V]]:
 
 
 for _pid, _vs in _batch7().items():
+    REGISTRY[_pid] = _merged(REGISTRY[_pid], (lambda vs: (lambda: vs))(_vs))
+
+
+# ---------------------------------------------------------------------------------------------------------------------
+# eighth batch: the rules guarding the repairs made after the fourth round
+def _batch8() -> Dict[str, List[V]]:
+    fresh = [
+        V("nested-query-keeps-its-duplicate-state", S, "An._evaluate__", "            self._child_._reset_cache_()\n", "", rule="QUERY-FRESH-STATE"),
+        V("the-keeps-its-duplicate-state", S, "The._evaluate_", "        self._child_._reset_cache_()\n", "", rule="QUERY-FRESH-STATE"),
+        V("state-reset-for-nested-queries-only", S, "An._evaluate__", "            self._child_._reset_cache_()\n",
+          "            if self._parent_ is not None:\n                self._child_._reset_cache_()\n", rule="QUERY-FRESH-STATE"),
+        V("twin-state-reset-after-linking", S, "An._evaluate__", "            self._child_._reset_cache_()\n            self._child_._eval_parent_ = self\n",
+          "            self._child_._reset_cache_()\n            child = self._child_\n            child._eval_parent_ = self\n", kind="twin"),
+    ]
+    concl = [
+        V("conclusion-applied-to-the-row-as-it-fired", S, "QueryObjectDescriptor._evaluate_",
+          "            for v in self._bind_selected_variables_(self._unbound_conclusion_variables_(v), v):\n", "            for v in [v]:\n", rule="CONCLUSION-VARS-BOUND"),
+        V("selector-conclusions-left-out-of-the-key", S, "OR._required_variables_from_child_",
+          "                for conc in [*self.right._conclusion_, *self.right._conclusions_of_all_descendants_]:\n                    required_vars.update(conc._unique_variables_)\n                when_iam = None",
+          "                for conc in self.right._conclusion_:\n                    required_vars.update(conc._unique_variables_)\n                when_iam = None", rule="DEDUP-CONCLUSIONS"),
+    ]
+    neg = [
+        V("any-operand-accepted-by-not", S, "Not", "    elif not hasattr(operand, '_invert_'):\n", "    elif False:\n", rule="NEG-HONOURED",
+          also=[("operand._invert_ = not operand._invert_", "operand._invert_ = not getattr(operand, '_invert_', False)")]),
+        V("concatenation-declares-an-unused-flag", S, "Concatenate", "    _child_: CanBehaveLikeAVariable[T]\n\n    def __post_init__(self):\n        super().__post_init__()\n        self._var_ = self",
+          "    _child_: CanBehaveLikeAVariable[T]\n    _invert_: bool = field(init=False, default=False)\n\n    def __post_init__(self):\n        super().__post_init__()\n        self._var_ = self", rule="NEG-HONOURED"),
+    ]
+    reentrant = [
+        V("comparison-reads-the-request-from-the-object", S, "Comparator._evaluate__", "if res or yield_when_false:", "if res or self._yield_when_false_:", rule="REENTRANT-FLAG"),
+        V("conjunction-reads-the-request-from-the-object", S, "AND._evaluate__", "if yield_when_false and self.left._is_false_:", "if self._yield_when_false_ and self.left._is_false_:", rule="REENTRANT-FLAG"),
+        V("twin-request-read-before-the-first-suspension", S, "AND._evaluate__", "        self._yield_when_false_ = yield_when_false\n",
+          "        self._yield_when_false_ = yield_when_false\n        assert self._yield_when_false_ == yield_when_false\n", kind="twin"),
+    ]
+    ctx = [
+        V("evaluation-keeps-the-callers-expression-context", S, "symbolic_mode", "        if mode is None:\n", "        if False:\n", rule="EVAL-NO-CONTEXT"),
+        V("expression-context-not-put-back", S, "symbolic_mode", "        if hidden_stack is not None:\n            SymbolicExpression._symbolic_expression_stack_ = hidden_stack\n", "", rule="STACK-PAIRING"),
+        V("expression-context-put-back-outside-finally", S, "symbolic_mode",
+          "    finally:\n        if query is not None:\n            query.__exit__()\n        if hidden_stack is not None:\n            SymbolicExpression._symbolic_expression_stack_ = hidden_stack\n        _set_symbolic_mode(prev_mode)",
+          "    finally:\n        if query is not None:\n            query.__exit__()\n        _set_symbolic_mode(prev_mode)\n    if hidden_stack is not None:\n        SymbolicExpression._symbolic_expression_stack_ = hidden_stack", rule="STACK-PAIRING"),
+    ]
+    live = [
+        V("declaration-captures-the-stores", PR, "extract_selected_variable_and_expression", "    if not domain:\n        # no domain",
+          "    if not domain and get_cache_keys_for_class_(Variable._cache_, symbolic_cls):\n        domain = From((v for a, v in yield_class_values_from_cache(Variable._cache_, symbolic_cls, from_index=False, cache_keys=get_cache_keys_for_class_(Variable._cache_, symbolic_cls))))\n    elif not domain:\n        # no domain",
+          rule="REG-LIVE"),
+        V("registry-domain-kept-across-evaluations", S, "Variable._reset_only_my_cache_", "            self._domain_source_ = None\n            self._domain_ = HashedIterable()\n", "            pass\n", rule="REG-LIVE"),
+        V("selected-only-variable-not-reset", S, "QueryObjectDescriptor._reset_only_my_cache_",
+          "        for selected_variable in self.selected_variables:\n            for variable in selected_variable._all_variable_instances_:\n                variable._reset_only_my_cache_()\n", "", rule="REG-LIVE"),
+        V("registration-probes-the-instance", PR, "instantiate_class_and_update_cache", "HashedValue(instance, id(instance))", "HashedValue(instance)", rule="REG-NO-PROBE"),
+    ]
+    return {
+        "C03": neg + reentrant[:1],
+        "C04": fresh + live[1:3],
+        "C06": fresh[:2],
+        "C17": fresh[:1],
+        "C11": fresh[:1] + concl[1:],
+        "C15": fresh[:1],
+        "C12": concl,
+        "C01": reentrant,
+        "C19": reentrant[:2],
+        "C09": ctx[:1],
+        "C08": ctx,
+        "C14": live,
+    }
+
+
+for _pid, _vs in _batch8().items():
     REGISTRY[_pid] = _merged(REGISTRY[_pid], (lambda vs: (lambda: vs))(_vs))
